@@ -6,6 +6,7 @@ package pilosa
 import (
 	"bytes"
 	"fmt"
+	"os"
 	"path/filepath"
 	"reflect"
 	"sort"
@@ -90,7 +91,13 @@ func vxDiscardFragment(f *fragment) {
 	}
 	f.mu.Lock()
 	_ = f.closeStorage(true)
+	path := f.path
 	f.mu.Unlock()
+	// the fragment lives alone in a scratch directory of its own (vxOpenFragment): remove it, or a
+	// thorough run leaves millions of directories on the tmpfs and runs it out of inodes
+	if filepath.Base(path) == "frag" {
+		os.RemoveAll(filepath.Dir(path))
+	}
 }
 
 // vxModelBits renders a bit set canonically.
